@@ -20,6 +20,7 @@ Parametricity Recursive chk_qmdp_lowerF.
 Parametricity Recursive chk_qtableF.
 Parametricity Recursive chk_crossF.
 Parametricity Recursive chk_fullobs_geF.
+Parametricity Recursive chk_sweepF.
 Parametricity Recursive alpha_valueF.
 Parametricity Recursive alpha_avF.
 Parametricity Recursive qmdp_avF.
@@ -75,6 +76,9 @@ Proof. apply bool_R_inv, (chk_crossF_R A R RR NA NumR NR_); auto using pAR, nat_
 Lemma t_fullobs_ge tol j G u :
   chk_fullobs_geF pA tol j G u = chk_fullobs_geF pR (f tol) j (m2 G) (m1 u).
 Proof. apply bool_R_inv, (chk_fullobs_geF_R A R RR NA NumR NR_); auto using pAR, nat_R_refl, r1, r2. Qed.
+Lemma t_sweep tol Gp B cand idx :
+  chk_sweepF pA tol Gp B cand idx = chk_sweepF pR (f tol) (m2 Gp) (m2 B) (m3 cand) idx.
+Proof. apply bool_R_inv, (chk_sweepF_R A R RR NA NumR NR_); auto using pAR, r1, r2, r3, list_R_nat_refl. Qed.
 Lemma t_greedy ptol av d :
   greedy_checkF pA ptol av d = greedy_checkF pR (f ptol) (m1 av) (m1 d).
 Proof. apply bool_R_inv, (greedy_checkF_R A R RR NA NumR NR_); auto using pAR, r1. Qed.
@@ -109,7 +113,7 @@ Lemma BR_refl (b : bigQ) : BR b (BQ2R b). Proof. reflexivity. Qed.
 Definition C08_transfer_Q := (t_wf Q QR NumQ NumQR Q2R QR_refl, t_upper Q QR NumQ NumQR Q2R QR_refl,
   t_le_qmdp Q QR NumQ NumQR Q2R QR_refl, t_qmdp_lower Q QR NumQ NumQR Q2R QR_refl,
   t_qtable Q QR NumQ NumQR Q2R QR_refl, t_cross Q QR NumQ NumQR Q2R QR_refl,
-  t_fullobs_ge Q QR NumQ NumQR Q2R QR_refl, t_greedy Q QR NumQ NumQR Q2R QR_refl).
+  t_fullobs_ge Q QR NumQ NumQR Q2R QR_refl, t_sweep Q QR NumQ NumQR Q2R QR_refl, t_greedy Q QR NumQ NumQR Q2R QR_refl).
 (* bigQ: the mirror *)
 Definition C08_transfer_B := (t_wf bigQ BR NumB NumBR BQ2R BR_refl, t_mirror bigQ BR NumB NumBR BQ2R BR_refl,
   t_run bigQ BR NumB NumBR BQ2R BR_refl).
